@@ -203,7 +203,7 @@ func vC08WrapDB(v *vC08Net, db *channeldb.DB) {
 
 // ---- base scenarios --------------------------------------------------------------
 
-var vC08Scenarios = []string{"ok_ac", "ok_ca", "unknown_ac", "hold_ac", "two_ac"}
+var vC08Scenarios = []string{"ok_ac", "ok_ca", "unknown_ac", "unknown_ca", "hold_ac", "two_ac"}
 
 func vC08ScenarioPays(name string) []*vC08Pay {
 	switch name {
@@ -213,6 +213,8 @@ func vC08ScenarioPays(name string) []*vC08Pay {
 		return []*vC08Pay{{Kind: "ok", Dir: "CA", InChan: 2, OutChan: 1, Amt: 1500000}}
 	case "unknown_ac":
 		return []*vC08Pay{{Kind: "unknown", Dir: "AC", InChan: 1, OutChan: 2, Amt: 1200000}}
+	case "unknown_ca":
+		return []*vC08Pay{{Kind: "unknown", Dir: "CA", InChan: 2, OutChan: 1, Amt: 1300000}}
 	case "hold_ac":
 		return []*vC08Pay{{Kind: "hold_settle", Dir: "AC", InChan: 1, OutChan: 2, Amt: 2500000}}
 	default:
@@ -244,7 +246,8 @@ func vC08RunSP(t *testing.T, sp vC08SP, caseNo int, closing bool) (*vC08Case, []
 	defer func() { v.n.stop() }()
 	c.Init = vC08Ends(v.n, v.rec)
 	v.mu.Lock()
-	v.spOn, v.spVar, v.outFirst = true, sp.Variant, sp.OutFirst
+	// outFirst of the net = channel 2 first; the scenario's outgoing channel is 2 for A->C, 1 for C->A
+	v.spOn, v.spVar, v.outFirst = true, sp.Variant, sp.OutFirst != strings.HasSuffix(sp.Scenario, "_ca")
 	v.spDone = make(chan struct{})
 	if sp.Variant == "db" {
 		v.dbTarget, v.spKey = sp.K, "db"
@@ -298,7 +301,7 @@ func vC08StopPoints(t *testing.T, out *vWriter, root *vrng) {
 		return
 	}
 	pt, qt := vC08PayTimeout, vC08QuietTimeout
-	vC08PayTimeout, vC08QuietTimeout = 6*time.Second, 4*time.Second
+	vC08PayTimeout, vC08QuietTimeout = 20*time.Second, 10*time.Second
 	defer func() { vC08PayTimeout, vC08QuietTimeout = pt, qt }()
 
 	type base struct {
@@ -332,8 +335,12 @@ func vC08StopPoints(t *testing.T, out *vWriter, root *vrng) {
 					key = h[:j]
 					fmt.Sscanf(h[j+1:], "%d", &k)
 				}
+				// After a node restart the link of the OUTGOING channel comes up
+				// first in the restart-then-flap family (responses replayed
+				// for an incoming link that is not registered yet are parked
+				// as unclaimed), alternately in the plain restart family.
 				all = append(all, vC08SP{Scenario: sc, Variant: va, Key: key, K: k,
-					OutFirst: i%2 == 0})
+					OutFirst: va == "restartflap" || i%2 == 0})
 			}
 		}
 		for k := 1; k <= b.ntx; k++ {
@@ -349,6 +356,15 @@ func vC08StopPoints(t *testing.T, out *vWriter, root *vrng) {
 		}
 		all = f
 	}
+	if only := os.Getenv("VERIF_C08_SP_ONLY"); only != "" {
+		var f []vC08SP
+		for _, sp := range all {
+			if fmt.Sprintf("%s/%s/%s#%d", sp.Scenario, sp.Variant, sp.Key, sp.K) == only {
+				f = append(f, sp)
+			}
+		}
+		all = f
+	}
 	pick := all
 	if want > 0 && int(want) < len(all) {
 		// seeded sample, stratified by variant so that every family is in it
@@ -359,6 +375,21 @@ func vC08StopPoints(t *testing.T, out *vWriter, root *vrng) {
 		}
 		vars := []string{"restartflap", "db", "flap", "restart"}
 		pick = nil
+		// The core that is in every sample: the moment a LOCKED-IN response
+		// (here: a fail) is handed to the switch by the outgoing link, for
+		// both directions, with a flap of that link and with a node restart
+		// followed by flaps.  (The switch replays the responses of channel
+		// 1's packages at start, before any link is registered; the outgoing
+		// link replays its own on start.)
+		for _, sp := range all {
+			id := fmt.Sprintf("%s/%s/%s#%d", sp.Scenario, sp.Variant, sp.Key, sp.K)
+			switch id {
+			case "unknown_ac/flap/2:fwd#1", "unknown_ac/restartflap/2:fwd#1",
+				"unknown_ca/flap/1:fwd#1", "unknown_ca/restartflap/1:fwd#1":
+
+				pick = append(pick, sp)
+			}
+		}
 		for i := 0; len(pick) < int(want); i++ {
 			l := by[vars[i%len(vars)]]
 			if len(l) == 0 {
